@@ -1,4 +1,5 @@
 import Mutiny.Proofs.ZeroCopyRoom
+import Mutiny.Proofs.ZeroCopyValues
 
 /-!
 # C13 / C01 / C16 / C18 for the composed zero-copy container (model M4 `ZeroCopy`)
@@ -16,7 +17,11 @@ These theorems are about EVERY reachable state of that composition — any numbe
   `panic!("BUG…")` / `unwrap` branches of the callers are unreachable — and `dealloc` never finds the free list full (the ignored
   result of `publish_movable` in `dealloc_id` is safe);
 * consequently `enqueue` answers *full* only when the free list answered *empty* (C16, C18: slots held by operations in progress
-  count as taken).
+  count as taken);
+* **values**: a slot's content changes only at the instant it is allocated from the free list — never while it is queued or in
+  somebody's hands (C05 "storage never reused while held", C14 "deref stable"); the accepted values are the dequeued ones, in
+  queue order, followed by the values now queued — the container is a FIFO of the VALUES, and each dequeue takes the oldest
+  one (C01 payload exactness, C02 / C18 order, at the level of the composed container).
 -/
 
 namespace Mutiny.ZeroCopy
@@ -119,6 +124,68 @@ theorem zc_full_only_if_pool_exhausted {n : Nat} (hn : 0 < n) {s : St} (h : Reac
   | dFree id v => simp only [step, hz] at hnew; split at hnew <;> simp [hz] at hnew
   | lLen => simp [step, hz] at hnew
 
+
+/-! ## values -/
+
+/-- a slot's content is written only at the instant the slot leaves the free list (by conservation: it is then in nobody's
+    hands and not in the queue) — never while it is queued or held -/
+theorem zc_pool_stable {n : Nat} (hn : 0 < n) {s : St} (h : Reachable n s) (t id : Nat)
+    (hc : (step s t).pool id ≠ s.pool id) : id ∈ Ring.abs s.free ∧ id ∉ Ring.abs s.q ∧ ∀ u, ¬ held (s.thr u) id := by
+  have z := zinv_reachable hn h
+  have hph := z.phase t
+  have hfree : id ∈ Ring.abs s.free := by
+    cases hz : s.thr t with
+    | eAlloc w =>
+      simp only [hz, phaseOk] at hph
+      rcases consumer_step s.free t z.fInv hph.1 with ⟨id', hd, ha⟩ | ⟨hd, ha⟩ | ⟨hcl, ha⟩
+      · simp only [step, hz, hd] at hc
+        by_cases e : id = id'
+        · subst e; rw [ha]; simp
+        · exact absurd (by simp [setThr, e]) hc
+      · simp [step, hz, hd, setThr] at hc
+      · have hnd : ∀ r, (Ring.step s.free t).thr t ≠ .done r := by intro r e; rw [e] at hcl; exact hcl
+        simp only [step, hz] at hc
+        split at hc
+        · next _ e => exact absurd e (hnd _)
+        · next e => exact absurd e (hnd _)
+        · exact absurd rfl hc
+    | ePub w id' => simp only [step, hz] at hc; split at hc <;> exact absurd rfl hc
+    | dCons => simp only [step, hz] at hc; split at hc <;> exact absurd rfl hc
+    | dFree id' w => simp only [step, hz] at hc; split at hc <;> exact absurd rfl hc
+    | _ => simp [step, hz, setThr] at hc
+  refine ⟨hfree, ?_, ?_⟩
+  · intro hq
+    exact (List.nodup_append.mp z.tok.nodup).2.2 id hfree id hq rfl
+  · intro u hu
+    exact z.tok.hFresh u id hu (List.mem_append_left _ hfree)
+
+/-- the container is a FIFO of the VALUES: accepted values = dequeued values (in queue order) ++ values now queued -/
+theorem zc_value_fifo {n : Nat} (hn : 0 < n) {s : St} (h : Reachable n s) : ∃ d, s.enqLog = d ++ abs s :=
+  (vinv_reachable hn h).2.fifo
+
+/-- a dequeue takes the OLDEST queued value: at the step in which the queue of ids hands slot `id` to thread `t`, the value in
+    that slot is the front of the value queue, and the rest of the queue is unchanged -/
+theorem zc_dequeue_takes_oldest {n : Nat} (hn : 0 < n) {s : St} (h : Reachable n s) (t id : Nat) (hz : s.thr t = .dCons)
+    (hg : (Ring.step s.q t).thr t = .done (.got id)) :
+    abs s = s.pool id :: abs (step s t) ∧ (step s t).thr t = .dLen id := by
+  have z := zinv_reachable hn h
+  have hph := z.phase t
+  simp only [hz, phaseOk] at hph
+  rcases consumer_step s.q t z.qInv hph.2 with ⟨id', hd, ha⟩ | ⟨hd, -⟩ | ⟨hc, -⟩
+  · have e : id' = id := by rw [hd] at hg; cases hg; rfl
+    subst e
+    simp only [step, hz, hd, abs]
+    refine ⟨?_, by simp⟩
+    show (Ring.abs s.q).map s.pool = s.pool id' :: (Ring.abs (Ring.apply (Ring.step s.q t) (.ack t))).map s.pool
+    rw [ring_abs_apply _ _ (by intro u e; cases e), ha, List.map_cons]
+  · rw [hd] at hg; cases hg
+  · rw [hg] at hc; exact absurd hc (by simp [ConsLoc])
+
+/-- … and what the dequeue finally returns is the content of that slot (read at `dLen`, unchanged since by `zc_pool_stable`) -/
+theorem zc_dequeue_returns_slot_content (s : St) (t id : Nat) (hz : s.thr t = .dLen id) :
+    (step s t).thr t = .dDrop id (s.pool id) ∧ (step s t).deqLog = s.deqLog ++ [s.pool id] := by
+  simp [step, hz, setThr]
+
 /-! ## non-vacuity: a reachable state in which a slot is held, one is queued, and the free list holds the rest -/
 
 def demoRun : List Act :=
@@ -136,5 +203,9 @@ example : let s := run (init 4) demoRun
 #print axioms zc_publish_never_full
 #print axioms zc_dealloc_never_full
 #print axioms zc_full_only_if_pool_exhausted
+#print axioms zc_pool_stable
+#print axioms zc_value_fifo
+#print axioms zc_dequeue_takes_oldest
+#print axioms zc_dequeue_returns_slot_content
 
 end Mutiny.ZeroCopy
